@@ -100,6 +100,7 @@ type pollCtx struct {
 	Budget   int // 0: unlimited
 	CancelAt int // >0: report done from the k-th poll on (k counted from 1)
 	Exceeded bool
+	OnFire   func(reason string) // called once when the context becomes done
 }
 
 func newPollCtx(budget int) *pollCtx { return &pollCtx{done: make(chan struct{}), Budget: budget} }
@@ -122,6 +123,9 @@ func (c *pollCtx) Value(any) any { return nil }
 func (c *pollCtx) cancelNow(e error) {
 	if c.err == nil {
 		c.err = e
+		if c.OnFire != nil {
+			c.OnFire(e.Error())
+		}
 		vsched.CloseNow(c.done)
 	}
 }
@@ -157,7 +161,11 @@ func (e vmExec) LoadSingleton(id, mod string) (value.Value, bool, error) {
 }
 func (e vmExec) GetBuiltinImport(a, b string) (value.Value, bool) { return nil, false }
 func (e vmExec) ResolveModuleCode(a string) (string, bool, error)  { return "", false, nil }
-func (e vmExec) WriteStringTo(s string) error                      { e.r.out.WriteString(s); return nil }
+func (e vmExec) WriteStringTo(s string) error {
+	e.r.out.WriteString(s)
+	vsched.Progress()
+	return nil
+}
 func (e vmExec) RegisterTrigger(cb, trig string, s herrors.Span, args []value.Value) error {
 	var as []string
 	for _, a := range args {
@@ -176,7 +184,11 @@ type treeExec struct{ r *rec }
 
 func (e treeExec) GetBuiltinImport(a, b string) (ivalue.Value, bool) { return nil, false }
 func (e treeExec) ResolveModuleCode(a string) (string, bool, error)   { return "", false, nil }
-func (e treeExec) WriteStringTo(s string) error                       { e.r.out.WriteString(s); return nil }
+func (e treeExec) WriteStringTo(s string) error {
+	e.r.out.WriteString(s)
+	vsched.Progress()
+	return nil
+}
 func (e treeExec) GetUser() string                                    { return "verif" }
 func (e treeExec) LoadSingleton(id string, t ast.Type) (*ivalue.Value, bool, *ivalue.Interrupt) {
 	e.r.singles = append(e.r.singles, id)
@@ -458,8 +470,24 @@ func splitPanic(p string) (msg, site string) {
 	return p, ""
 }
 
-// RunTree runs an accepted program on the tree-walking interpreter (calling goroutine).
+// RunTree runs an accepted program on the tree-walking interpreter. In the controlled variants
+// it runs as the single thread of a controlled execution so that host sleeps are virtual.
 func RunTree(a Analyzed, opts RunOpts) (o Obs) {
+	if controlled && !vsched.Active() {
+		x := vsched.Run(opts.Horizon, func() { o = runTree(a, opts) })
+		if len(x.Panics) > 0 {
+			o.Class = "HOST-PANIC"
+			o.Msg, o.PanicSite = splitPanic(x.Panics[0])
+		} else if x.Outcome != "ok" {
+			o.Class = "HANG"
+			o.Msg = x.Outcome
+		}
+		return o
+	}
+	return runTree(a, opts)
+}
+
+func runTree(a Analyzed, opts RunOpts) (o Obs) {
 	r := &rec{}
 	ctx := newPollCtx(opts.PollBudget * 50)
 	if opts.CancelAt > 0 {
@@ -510,4 +538,38 @@ func RunTree(a Analyzed, opts RunOpts) (o Obs) {
 		o.Class = "stray-" + (*i).Kind().String()
 	}
 	return
+}
+
+// showValue renders a VM value deterministically (object fields sorted), in the format of the
+// reference evaluator's Display.
+func showValue(v value.Value) string {
+	switch x := v.(type) {
+	case value.ValueObject:
+		keys := make([]string, 0, len(x.FieldsInternal))
+		for k := range x.FieldsInternal {
+			keys = append(keys, k)
+		}
+		sort.Strings(keys)
+		parts := make([]string, len(keys))
+		for i, k := range keys {
+			parts[i] = k + ": " + strings.ReplaceAll(showValue(*x.FieldsInternal[k]), "\n", "\n    ")
+		}
+		return "{\n    " + strings.Join(parts, ",\n    ") + "\n}"
+	case value.ValueList:
+		parts := make([]string, len(*x.Values))
+		for i, e := range *x.Values {
+			parts[i] = showValue(*e)
+		}
+		return "[" + strings.Join(parts, ", ") + "]"
+	case value.ValueOption:
+		if x.Inner == nil {
+			return "none"
+		}
+		return "Some(" + showValue(*x.Inner) + ")"
+	}
+	d, i := v.Display()
+	if i != nil {
+		return "<display error>"
+	}
+	return d
 }
